@@ -20,7 +20,7 @@ from sx import core, harness
 from sx.core import Rel, And, Or, Not, Implies
 from sx.harness import Case, run_property, shell_spec, make_shell
 from . import common as cm
-from . import c01, c02, c03, c04
+from . import c01, c02, c03, c04, c09
 
 ENCODED = sorted(set(c01.ENCODED + c02.ENCODED + c03.ENCODED + c04.ENCODED))
 
@@ -96,6 +96,16 @@ class GramPointCharge(_GramMixin, c03.Public):
 
 class GramEri(_GramMixin, c04.PublicS):
     gram_tol = 1e-6
+
+
+class GramEriSph(_GramMixin, c09.PublicDispatch):
+    """spherical / mixed ERI array == the Cartesian Gram array contracted with the solid-harmonic matrices (a
+    congruence keeps positive semi-definiteness); generalized spherical shells included"""
+
+    gram_tol = 1e-6
+
+    def code(self, I, mk):
+        return {"A": c09.PublicDispatch.code(self, I, mk)["A"]}
 
 
 class Direct(Case):
@@ -212,6 +222,8 @@ def cases(tier, seed=0):
     out.append(GramPointCharge(ls=[0, 1], types="cc", Ks=[2, 1], Ms=[1, 2], nq=1))
     out.append(GramPointCharge(ls=[2, 1], types="sc", Ks=[1, 1], Ms=[1, 1], nq=1))
     out.append(GramEri(ls=[0, 0], Ks=[2, 1], Ms=[1, 2]))
+    out.append(GramEriSph(module="eri", ls=[0, 1], types="cs", Ks=[1, 1], Ms=[1, 2]))
+    out.append(GramEriSph(module="eri", ls=[1, 1], types="ss", Ks=[1, 1], Ms=[1, 2]))
     out.append(GramEri(ls=[0, 0], Ks=[2, 1], Ms=[2, 2], exps=[["3/2", "3/10"], ["7/10"]], heavy=True))
     if tier == "thorough":
         out.append(GramOverlap(ls=[0, 1, 2], types="csc", Ks=[1, 1, 1], Ms=[1, 1, 1]))
